@@ -323,6 +323,34 @@ def run_case(spec):
                 continue  # the thousand identical two-message tasks are judged as a stream above, a few of them one by one
         n = len(tmsgs)
         one = {u: tmsgs}
+        if n >= 3:
+            # a Parser value is immutable: after feeding a common prefix once, continuing THE SAME parser object along two different
+            # suffixes gives what two fresh parsers fed prefix+suffix give (how a search over arrival orders shares work)
+            for _ in range(2):
+                order = list(tmsgs)
+                rng.shuffle(order)
+                k = rng.randint(1, n - 1)
+                try:
+                    shared = Parser()
+                    for m in order[:k]:
+                        _, shared = shared.add(m)
+                    suffixes = [order[k:], order[k:][::-1]]
+                    for suf in suffixes:
+                        done_b, pb = [], shared
+                        for m in suf:
+                            d_, pb = pb.add(m)
+                            done_b += d_
+                        done_f, pf = [], Parser()
+                        for m in order[:k] + suf:
+                            d_, pf = pf.add(m)
+                            done_f += d_
+                        if done_b != done_f or pb.incomplete_tasks() != pf.incomplete_tasks():
+                            problems.append("continuing one parser value along a second suffix gives a different result than a fresh parser "
+                                            "fed the same %d messages (%d vs %d tasks completed)" % (n, len(done_b), len(done_f)))
+                            break
+                    c["branched_parsers"] = c.get("branched_parsers", 0) + 1
+                except BaseException as e:
+                    problems.append("branching a parser raised %r" % (e,))
         if 2 <= n <= exh_limit:
             exhaustive_tasks += 1
             for perm in itertools.permutations(tmsgs):
